@@ -1,5 +1,6 @@
 import Lean.Data.Json
 import CbiVerif.Model.Compilers
+import CbiVerif.Model.CompilersRe
 import CbiVerif.Generated.Compilers
 /-! driver ops for C12.  The compiler tables are sent as the JSON image of the parsed TOML, so the
     request for a user configuration is literally `tomllib.load(".cbi/config")`. -/
@@ -48,7 +49,7 @@ def decUser (j : Json) : UserFile :=
     | _ => .absent
   | _ => .absent
 
-def decMatches (j : Json) : Matches :=
+def decMatches (j : Json) : List ((String × String) × List String) :=
   ((optArr j "matches").getD []).map fun e => match e with
     | Json.arr a => (((a[0]!).getStr?.toOption.getD "", (a[1]!).getStr?.toOption.getD ""),
                      ((a[2]!).getArr?.toOption.getD #[]).toList.map fun x => x.getStr?.toOption.getD "")
@@ -98,7 +99,9 @@ def resolvedKind : Resolved → Json
   | .loop => "loop"
   | .unknownTarget a => Json.arr #["unknownTarget", Json.str a]
 
-/-- {"op":"c12","user":{kind,defs},"builtin"?:[[[name,def]...]...],"matches":[[flag0,value,[..]]],
+/-- `re.findall` is computed by the model (`emulateRe` / `loadDatabaseRe`: `Model/Regex.lean`); "matches" is only
+    consulted for patterns outside the supported fragment.
+    {"op":"c12","user":{kind,defs},"builtin"?:[[[name,def]...]...],"matches":[[flag0,value,[..]]],
      "cmds":[{"argv0","argv","file"?, "filedir"?}], "dump"?:bool} -/
 def handleC12 (j : Json) : Json :=
   let builtin : List (List (String × Definition)) :=
@@ -117,7 +120,7 @@ def handleC12 (j : Json) : Json :=
     let argv := strs cj "argv"
     let r := resolve cs argv0
     let base : List (String × Json) := [("resolved", resolvedKind r)]
-    match emulate cs mt argv0 argv with
+    match emulateRe cs mt argv0 argv with
     | .error e => Json.mkObj (base ++ [("exc", errJson e)])
     | .ok (cfgs, logs) =>
       let cmd : CbiVerif.Compilers.Command := { file := (optStr cj "file").getD "", filedir := (optStr cj "filedir").getD "", argv0 := argv0, argv := argv }
@@ -130,7 +133,7 @@ def handleC12 (j : Json) : Json :=
     { file := (optStr cj "file").getD "", filedir := (optStr cj "filedir").getD "", argv0 := (optStr cj "argv0").getD "", argv := strs cj "argv" }
   let db : List (String × Json) :=
     if (j.getObjValAs? Bool "db").toOption.getD false then
-      match loadDatabase cs mt allCmds with
+      match loadDatabaseRe cs mt allCmds with
       | .error e => [("db_exc", errJson e)]
       | .ok (es, logs) => [("db_entries", Json.arr (es.map fun e => Json.mkObj [("file", e.file), ("cfg", cfgJson e.cfg)]).toArray),
                            ("db_logs", Json.arr (logs.map logJson).toArray)]
